@@ -223,12 +223,13 @@ fn explore(args: &[String]) {
         let solo_only = arg(args, "--solo").is_some();
         let strat = if solo_only {
             if rng.chance(1, 2) { Strategy::FreezeThenSolo { delay: rng.below(60), bound: 150 } } else { Strategy::Solo { start: 20 + rng.below(200), tid: rng.below(4), bound: 150, when_pinned: rng.chance(1, 2) } }
-        } else { match rng.below(6) {
+        } else { match rng.below(7) {
             0 | 1 => Strategy::Random,
             2 => Strategy::Pct { d: 1 },
             3 => Strategy::Pct { d: 2 },
             4 => Strategy::Pct { d: 3 },
-            _ => Strategy::Stall { victim: rng.below(4), at: rng.below(120) },
+            5 => Strategy::Stall { victim: rng.below(4), at: rng.below(120) },
+            _ => Strategy::Stall2 { victim: 1 + rng.below(3), at1: rng.below(40), run1: 20 + rng.below(200), at2: 1 + rng.below(12) },
         } };
         // the known-finding family F1 needs its window held open: the adding thread stalls right after its snapshot
         let strat = if fam == "kf1" && rng.chance(3, 4) { Strategy::Stall { victim: 1, at: 2 } } else { strat };
@@ -245,6 +246,7 @@ fn explore(args: &[String]) {
             Strategy::Script(_) => "script".to_string(),
             Strategy::Pct { d } => format!("pct{}", d),
             Strategy::Stall { .. } => "stall".to_string(),
+            Strategy::Stall2 { .. } => "stall2".to_string(),
             Strategy::Solo { .. } => "solo".to_string(),
             Strategy::FreezeThenSolo { .. } => "freeze_solo".to_string(),
             _ => "replay".to_string(),
